@@ -317,6 +317,21 @@ def finite_diff(vals, order, p):
     return cur
 
 
+def _flatten(v):
+    """Elements of a (nested) array value as a flat list of integers; None if an element is unknown."""
+    if isinstance(v, list):
+        out = []
+        for y in v:
+            fy = _flatten(y)
+            if fy is None:
+                return None
+            out += fy
+        return out
+    if v is UNK or not isinstance(v, int):
+        return None
+    return [v]
+
+
 def check_degrees(pre, ssa, p, base, direction, names, max_steps=400):
     """Degree claims along the line base + t*direction (t = 0..4) in the space of
     the indeterminates `names`. Only positions reached on an identical control
@@ -340,10 +355,22 @@ def check_degrees(pre, ssa, p, base, direction, names, max_steps=400):
                 vals = None
                 break
             vals.append(tb[k][0])
-        if not vals or any(v is UNK or isinstance(v, list) for v in vals):
+        if not vals or any(v is UNK for v in vals):
             continue
         hi = DEG_N[cd[2]]
         if hi > 2:
+            continue
+        if any(isinstance(v, list) for v in vals):
+            # an array-valued node: the bound is claimed for every element
+            flat = [_flatten(v) for v in vals]
+            if any(fl is None for fl in flat) or len(set(len(fl) for fl in flat)) != 1:
+                continue
+            exercised += 1
+            for j in range(len(flat[0])):
+                col = [fl[j] for fl in flat]
+                if any(x != 0 for x in finite_diff(col, hi + 1, p)):
+                    bad.append((k, cd, col))
+                    break
             continue
         exercised += 1
         d = finite_diff(vals, hi + 1, p)
@@ -368,7 +395,7 @@ def _reads(x, acc):
         elif x[0] == "phi":
             for a in x[1]:
                 acc["reads"].add(tuple(a[1:4]))
-        for y in x[1:]:
+        for y in (x if isinstance(x[0], list) else x[1:]):     # a list of nodes has no head symbol
             _reads(y, acc)
 
 
